@@ -87,6 +87,15 @@ class World:
             return
         self.p.assume(cond)
 
+    def assume_fast(self, cond):
+        """Constrain without a feasibility check (for constraints on fresh values that are
+        satisfiable by construction; the next branch notices an unsatisfiable path anyway)."""
+        if isinstance(cond, bool):
+            if not cond:
+                raise Infeasible()
+            return
+        self.p.add(zbool(cond))
+
     def cut(self, reason):
         raise Cut(reason)
 
@@ -315,6 +324,8 @@ class ConcreteWorld(World):
     def assume(self, cond):
         if not cond:
             raise Infeasible()
+
+    assume_fast = assume
 
     def not_(self, a):
         return not a
